@@ -19,18 +19,82 @@ type clientCalls struct {
 }
 
 func c19R4(c *kit.Ctx, m *c19Model) {
-	r := c.Rule("R4", "client methods: encode → write → read → decode, errors returned, function code and echo checked", 26)
-	if len(m.Clients) < 6 {
-		c.Fatalf("expected at least 6 client request methods, found %d", len(m.Clients))
-	}
+	r := c.Rule("R4", "client methods: encode → write → read → decode, errors returned, function code and echo checked", 20)
+	entries := 0
 	for _, f := range m.Clients {
 		c.Analysed(f)
-		c19ClientMethod(c, m, r, f)
+		entries += c19ClientMethod(c, m, r, f)
+	}
+	if entries < 6 {
+		c.Fatalf("expected at least 6 client request entry points (methods that run, or delegate to, an encode…decode cycle), found %d", entries)
 	}
 	boundsRule(c, r, m.Clients, nil)
 }
 
-func c19ClientMethod(c *kit.Ctx, m *c19Model, r *kit.Rule, f *kit.Func) {
+// c19Wrappers lists the methods that delegate to the shared request cycle h:
+// `return recv.h(…, id, ctor(params…))`.
+type clientWrapper struct {
+	f       *kit.Func
+	call    *ast.CallExpr
+	code    int64
+	problem string
+}
+
+func c19Wrappers(c *kit.Ctx, m *c19Model, h *kit.Func, idIdx, reqIdx int) []clientWrapper {
+	var out []clientWrapper
+	for _, w := range c.P.Funcs("modbus") {
+		if w.Decl == nil || w == h {
+			continue
+		}
+		for _, call := range w.AllCalls(false) {
+			if w.CalleeFunc(call) != h {
+				continue
+			}
+			cw := clientWrapper{f: w, call: call, code: -1}
+			info := w.Info()
+			params := w.Params()
+			switch {
+			case len(call.Args) <= idIdx || len(call.Args) <= reqIdx || len(params) < 2:
+				cw.problem = "unexpected argument list"
+			default:
+				if _, isRet := c.P.Parent(w.File, call).(*ast.ReturnStmt); !isRet {
+					cw.problem = "the result of the shared request cycle is not returned as it is"
+				}
+				if kit.ObjOf(info, call.Args[idIdx]) != types.Object(params[0]) {
+					cw.problem = fmt.Sprintf("the unit id handed on (`%s`) is not the method's first parameter", w.Str(call.Args[idIdx]))
+				}
+				ctorCall, ok := ast.Unparen(mbResolve(w, call.Args[reqIdx])).(*ast.CallExpr)
+				var ctor *kit.Func
+				if ok {
+					ctor = w.CalleeFunc(ctorCall)
+				}
+				switch {
+				case ctor == nil || ctor.Decl == nil:
+					cw.problem = "the request is not built by a module constructor"
+				case len(ctorCall.Args) != len(params)-1:
+					cw.problem = "the request constructor does not receive the method's parameters"
+				default:
+					for i, a := range ctorCall.Args {
+						if kit.ObjOf(info, a) != types.Object(params[i+1]) {
+							cw.problem = fmt.Sprintf("request constructor argument %d is `%s`, not parameter %s", i+1, w.Str(a), params[i+1].Name())
+						}
+					}
+					code, msg := m.ctorShape(ctor)
+					if msg != "" {
+						cw.problem = ctor.Name + ": " + msg
+					}
+					cw.code = code
+				}
+			}
+			out = append(out, cw)
+		}
+	}
+	return out
+}
+
+// c19ClientMethod checks one request cycle and returns the number of client
+// entry points it serves (1, or the number of methods delegating to it).
+func c19ClientMethod(c *kit.Ctx, m *c19Model, r *kit.Rule, f *kit.Func) int {
 	info := f.Info()
 	g := c.P.Graph(f)
 	cc := clientCalls{n: map[string]int{}}
@@ -54,7 +118,7 @@ func c19ClientMethod(c *kit.Ctx, m *c19Model, r *kit.Rule, f *kit.Func) {
 	oSeq := r.Ob(f, nil, "sequence", "one encode, write, read and decode, in this order, each handing its result to the next; the unit id and the request built from the parameters are what is encoded")
 	if cc.n["encode"] != 1 || cc.n["write"] != 1 || cc.n["read"] != 1 || cc.n["decode"] != 1 {
 		oSeq.Undecided("expected exactly one call of each transport method, found %v", cc.n)
-		return
+		return 1
 	}
 	lhsOf := func(call *ast.CallExpr) []ast.Expr {
 		if as, ok := c.P.Parent(f.File, call).(*ast.AssignStmt); ok && len(as.Rhs) == 1 {
@@ -69,7 +133,7 @@ func c19ClientMethod(c *kit.Ctx, m *c19Model, r *kit.Rule, f *kit.Func) {
 	}
 	if len(encL) != 2 || len(rdL) != 2 || len(decL) != 3 {
 		oSeq.Undecided("results of the transport calls are not assigned to variables")
-		return
+		return 1
 	}
 	packet := kit.ObjOf(info, encL[0])
 	if len(cc.wr.Args) != 1 || packet == nil || kit.ObjOf(info, cc.wr.Args[0]) != packet {
@@ -103,42 +167,86 @@ func c19ClientMethod(c *kit.Ctx, m *c19Model, r *kit.Rule, f *kit.Func) {
 	params := f.Params()
 	if len(params) < 2 {
 		oSeq.Undecided("unexpected parameter list")
-		return
+		return 1
 	}
-	if kit.ObjOf(info, cc.enc.Args[0]) != types.Object(params[0]) {
-		problems = append(problems, fmt.Sprintf("the unit id encoded (`%s`) is not the method's first parameter", f.Str(cc.enc.Args[0])))
-	}
+	entries := 1
 	reqVar := kit.ObjOf(info, cc.enc.Args[1])
-	var ctor *kit.Func
-	var ctorCall *ast.CallExpr
-	if reqVar != nil {
-		if call, ok := ast.Unparen(mbResolve(f, cc.enc.Args[1])).(*ast.CallExpr); ok {
-			ctor, ctorCall = f.CalleeFunc(call), call
-		}
-	}
-	reqCode := int64(-1)
-	if ctor == nil || ctor.Decl == nil {
-		problems = append(problems, "the request is not built by a module constructor")
-	} else {
-		if len(ctorCall.Args) != len(params)-1 {
-			problems = append(problems, "the request constructor does not receive the method's parameters")
-		} else {
-			for i, a := range ctorCall.Args {
-				if kit.ObjOf(info, a) != types.Object(params[i+1]) {
-					problems = append(problems, fmt.Sprintf("request constructor argument %d is `%s`, not parameter %s", i+1, f.Str(a), params[i+1].Name()))
-				}
+	idObj := kit.ObjOf(info, cc.enc.Args[0])
+	reqCodes := []int64{}
+	paramIdx := func(o types.Object) int {
+		for i, p := range params {
+			if types.Object(p) == o {
+				return i
 			}
 		}
-		code, msg := m.ctorShape(ctor)
-		if msg != "" {
-			problems = append(problems, ctor.Name+": "+msg)
-		}
-		reqCode = code
+		return -1
 	}
-	if len(problems) > 0 {
-		oSeq.Violation("%s", strings.Join(problems, "; "))
+	if ri := paramIdx(reqVar); ri >= 0 && types.Identical(params[ri].Type(), m.PduType) {
+		// shared request cycle: the request and the unit id are parameters;
+		// every method delegating to it must hand on its id and a constructed request
+		ii := paramIdx(idObj)
+		if ii < 0 {
+			problems = append(problems, fmt.Sprintf("the unit id encoded (`%s`) is not a parameter", f.Str(cc.enc.Args[0])))
+		}
+		ws := c19Wrappers(c, m, f, ii, ri)
+		entries = len(ws)
+		if len(ws) == 0 {
+			oSeq.Undecided("the request cycle takes the request as a parameter but nothing calls it")
+			return 0
+		}
+		var names []string
+		for _, w := range ws {
+			ow := r.Ob(w.f, w.call, "sequence", "the method hands its unit id and the request built from its parameters to the shared request cycle and returns its result")
+			if w.problem != "" {
+				ow.Violation("%s", w.problem)
+			} else {
+				ow.OK("%s(%s, …) with request code %d", f.Name, w.f.Params()[0].Name(), w.code)
+			}
+			c.Analysed(w.f)
+			reqCodes = append(reqCodes, w.code)
+			names = append(names, w.f.Name)
+		}
+		if len(problems) > 0 {
+			oSeq.Violation("%s", strings.Join(problems, "; "))
+		} else {
+			oSeq.OK("encode(%s, %s) → write → read → cut → decode; shared by %s", f.Str(cc.enc.Args[0]), f.Str(cc.enc.Args[1]), strings.Join(names, ", "))
+		}
 	} else {
-		oSeq.OK("encode(%s, %s(...)) → write → read → cut → decode; request code %d", params[0].Name(), ctor.Name, reqCode)
+		if idObj != types.Object(params[0]) {
+			problems = append(problems, fmt.Sprintf("the unit id encoded (`%s`) is not the method's first parameter", f.Str(cc.enc.Args[0])))
+		}
+		var ctor *kit.Func
+		var ctorCall *ast.CallExpr
+		if reqVar != nil {
+			if call, ok := ast.Unparen(mbResolve(f, cc.enc.Args[1])).(*ast.CallExpr); ok {
+				ctor, ctorCall = f.CalleeFunc(call), call
+			}
+		}
+		reqCode := int64(-1)
+		if ctor == nil || ctor.Decl == nil {
+			problems = append(problems, "the request is not built by a module constructor")
+		} else {
+			if len(ctorCall.Args) != len(params)-1 {
+				problems = append(problems, "the request constructor does not receive the method's parameters")
+			} else {
+				for i, a := range ctorCall.Args {
+					if kit.ObjOf(info, a) != types.Object(params[i+1]) {
+						problems = append(problems, fmt.Sprintf("request constructor argument %d is `%s`, not parameter %s", i+1, f.Str(a), params[i+1].Name()))
+					}
+				}
+			}
+			code, msg := m.ctorShape(ctor)
+			if msg != "" {
+				problems = append(problems, ctor.Name+": "+msg)
+			}
+			reqCode = code
+		}
+		reqCodes = append(reqCodes, reqCode)
+		if len(problems) > 0 {
+			oSeq.Violation("%s", strings.Join(problems, "; "))
+		} else {
+			oSeq.OK("encode(%s, %s(...)) → write → read → cut → decode; request code %d", params[0].Name(), ctor.Name, reqCode)
+		}
 	}
 
 	// typestate
@@ -253,25 +361,31 @@ func c19ClientMethod(c *kit.Ctx, m *c19Model, r *kit.Rule, f *kit.Func) {
 		case "nil":
 			oFc.Violation("a response with another function code is accepted at %s", f.At(x.e.Return))
 		case "decoder":
-			codes := m.acceptedCodes(x.dec)
-			has := false
-			for _, k := range codes {
-				if k == reqCode {
-					has = true
-				}
-				if k >= 0x80 {
-					has = false
-					break
-				}
+			codes, okCodes := m.acceptedCodes(x.dec)
+			if !okCodes {
+				oFc.Undecided("the function codes accepted by %s cannot be determined", x.dec.Name)
+				continue
 			}
-			if len(codes) == 0 || !has {
-				oFc.Violation("the method returns through %s, which accepts function codes %v, not the request's code %d", x.dec.Name, codes, reqCode)
+			for _, reqCode := range reqCodes {
+				has := false
+				for _, k := range codes {
+					if k == reqCode {
+						has = true
+					}
+					if k >= 0x80 {
+						has = false
+						break
+					}
+				}
+				if len(codes) == 0 || !has {
+					oFc.Violation("the method returns through %s, which accepts function codes %v, not the request's code %d", x.dec.Name, codes, reqCode)
+				}
 			}
 		case "unknown":
 			oFc.Undecided("cannot classify `%s`", f.Str(x.e.Return))
 		}
 	}
-	oFc.OK("mismatch → error (or decoder that accepts only %d's family)", reqCode)
+	oFc.OK("mismatch → error (or decoder that accepts only the family of %v)", reqCodes)
 	if isWrite {
 		_, exits = run(kit.NewS().Set("a:fcne", "F").Set("a:echoeq", "F"))
 		for _, x := range exits {
@@ -284,6 +398,7 @@ func c19ClientMethod(c *kit.Ctx, m *c19Model, r *kit.Rule, f *kit.Func) {
 		}
 		oEcho.OK("echo mismatch → error")
 	}
+	return entries
 }
 
 // ctorShape checks a request constructor: returns PDU{FunctionCode: <const>,
